@@ -1,0 +1,20 @@
+// Copyright 2024 The Mellium Contributors.
+// Use of this source code is governed by the BSD 2-clause
+// license that can be found in the LICENSE file.
+
+//go:build verif
+
+package xmpp
+
+import (
+	"mellium.im/xmpp/internal/saslerr"
+)
+
+// VerifSASLCondition and VerifSASLError make the SASL failure payload of
+// internal/saslerr (its TokenReader, WriteXML, MarshalXML and UnmarshalXML)
+// reachable from the verification harness, which lives in another module and
+// cannot import an internal package (verification builds only).
+type (
+	VerifSASLCondition = saslerr.Condition
+	VerifSASLError     = saslerr.Error
+)
